@@ -6,6 +6,7 @@ Emit(S) == \A c \in S : PrintT(ToJson(c))
 InitMethods == x = 0 /\ Emit(MethodCases)
 InitNames == x = 0 /\ Emit(NameCases)
 InitMaps == x = 0 /\ \A ls \in MappingLists : PrintT(ToJson([list |-> ls]))
+InitList == x = 0 /\ Emit(ListCases)
 InitSa == x = 0 /\ Emit(SaCases)
 Next == UNCHANGED x
 =============================================================================
